@@ -262,4 +262,110 @@ theorem C13_uncompressed_subsets_separate (s : CState) (h : Heap π ν) (hw : CW
 
 end CoderState
 
+/-! ### Non-vacuity, and the NEGATIONS: what happens without the write discipline -/
+
+/-- a small process: key `k` has Table B 001001 with `8 + k` bits; the decoded payload is that width
+    (plus the compiled code), so that a patched descriptor shows in every later output -/
+def exH : HParams Nat Nat Nat Nat Nat Nat where
+  limit := 2
+  cacheMax := fun c => if c = 0 then none else some 2
+  header := fun _ m => if m = 7 then .error .bitRead else .ok (m % 3, [1001, 201130, 301001])
+  loadFile := fun k => .ok ([(1001, ⟨1001, 8 + k, 0, 0⟩), (1002, ⟨1002, 7, 0, 0⟩)], [(301001, [1001, 1002])])
+  buildIds := fun _ ids => .ok (ids.filter (· < 100000))
+  compileIds := fun _ t => .ok (t.map (·.id), t.length)
+  decode := fun _ g _ oc m =>
+    .ok (m % 2 == 1, 2, fun i => ([.tab 1001, .pseudo ⟨1001, 9 + i, 0, 0⟩], [(1, 0)]),
+         (lookupD g.b 1001).nbits + (oc.map (·.code)).getD 0)
+  wireFn := fun d => .ok [d.payload]
+  view := fun q d ns => .ok (q + d.payload + ns.length + (d.subsets.map fun s => (s.1.map (·.nbits)).sum).sum)
+
+def outNat : Out (MsgV Nat) Nat → Nat
+  | .data d => d.payload + (d.subsets.map fun s => (s.1.map (·.nbits)).sum).sum
+  | .obs o => 1000 + o
+  | .done => 0
+  | .err _ => 999
+
+/-- an extra write that RESPECTS the discipline (it goes to a cell nobody owns) -/
+def Wfresh : Writes Nat Nat Nat Nat Nat := fun _ s => [(s.next + 1, .desc ⟨0, 99, 0, 0⟩)]
+
+/-- the hypothesis `Disciplined` is satisfiable by a `W` that does write -/
+theorem Wfresh_disciplined : Disciplined Wfresh := by
+  intro op s hs w hw hp
+  simp only [Wfresh, List.mem_singleton] at hw
+  subst hw
+  obtain ⟨r, hr, hx⟩ := hp
+  have := hs.closed r hr _ hx
+  omega
+
+def exHist : List (Op Nat Nat) :=
+  [.proc 1 .decode 0 false, .proc 1 .decode 1 true, .view 1 .decode 0 5, .proc 0 .decode 3 true, .proc 1 .decode 7 false,
+   .proc 1 .decode 2 false, .wire 1 .decode 1, .invalidate, .view 1 .decode 1 2, .proc 1 .decode 4 true]
+
+/-- the refinement, executed: shared descriptor objects, an aliased (compressed: odd inputs) and a
+    separate per-subset construction, in-place wiring, an eviction, a failing decode, extra writes to
+    fresh cells — outputs equal those of the immutable model -/
+example : ((hRun exH Wfresh HState.init exHist).2.map outNat) = ((run exH.toParams State.init exHist).2.map outNat) := by
+  decide
+
+/-- the descriptor object of Table B 001001 of the cached group: the FIRST decode's message and the
+    cache refer to the same cell (cell 0), the per-message marker is inline -/
+example : getItems (hRun exH Wfresh HState.init [.proc 1 .decode 0 false]).1.heap 6 = [.ref 0, .own ⟨1001, 9, 0, 0⟩] ∧
+    groupB (hRun exH Wfresh HState.init [.proc 1 .decode 0 false]).1.heap 3 = [(1001, 0), (1002, 1)] := by
+  decide
+
+/-- A DECODE THAT PATCHES THE CACHED DESCRIPTOR: after each `proc` the width of the first Table B
+    object of the first cached group is increased by 2 (as a decoder would do that applies 201YYY by
+    assignment to `descriptor.nbits` and never restores it). -/
+def Wpatch : Writes Nat Nat Nat Nat Nat := fun op s =>
+  match op, s.tables with
+  | .proc .., (_, g) :: _ =>
+    match groupB s.heap g with
+    | (_, r) :: _ => [(r, .desc { getDesc s.heap r with nbits := (getDesc s.heap r).nbits + 2 })]
+    | [] => []
+  | _, _ => []
+
+/-- NEGATION (the hypothesis `Disciplined` is necessary): with `Wpatch` the same decode answers
+    differently the second time — history independence fails. -/
+example : outNat (hStep exH Wpatch (hRun exH Wpatch HState.init [.proc 0 .decode 0 false]).1 (.proc 0 .decode 0 false)).2 ≠
+    outNat (hStep exH Wpatch HState.init (.proc 0 .decode 0 false)).2 := by decide
+
+/-- ... and it is `Wpatch` that violates the discipline: its target IS a protected cell -/
+example : ¬ Disciplined Wpatch := by
+  intro h
+  have hs : Sep (hCore exH HState.init (.proc 0 .decode 0 false)).1 :=
+    (hCore_spec exH HState.init State.init _ Sep.init Sim.init).1
+  have hw : Wpatch (.proc 0 .decode 0 false) (hCore exH HState.init (.proc 0 .decode 0 false)).1 = [(0, .desc ⟨1001, 10, 0, 0⟩)] := rfl
+  refine h (.proc 0 .decode 0 false) _ hs (0, .desc ⟨1001, 10, 0, 0⟩) (by rw [hw]; exact List.mem_singleton.2 rfl) ?_
+  exact ⟨3, Or.inl ⟨(0, 3), by decide, rfl⟩, by decide⟩
+
+/-- the kept message object is hit too: a later view of the object kept from the first decode differs
+    from a view in a fresh process -/
+example : outNat (hStep exH Wpatch (hRun exH Wpatch HState.init [.proc 0 .decode 0 false, .proc 0 .decode 3 false]).1 (.view 0 .decode 0 1)).2 ≠
+    outNat (hStep exH Wpatch HState.init (.view 0 .decode 0 1)).2 := by decide
+
+/-- `[[] for _ in range(3)]`: the well-formedness hypothesis of `C13_uncompressed_subsets_separate` holds
+    of what `CoderState.__init__` builds for uncompressed data -/
+example : CWf (mkCState (π := Nat) (ν := Nat) false 3 [] 5).1 (mkCState (π := Nat) (ν := Nat) false 3 [] 5).2.1 := by
+  refine ⟨by decide, by decide, by decide, ?_, ?_⟩
+  · intro r hr
+    have : r = 5 ∨ r = 6 ∨ r = 7 := by simpa [mkCState, List.range'] using hr
+    rcases this with rfl | rfl | rfl <;> exact ⟨_, rfl⟩
+  · intro r hr
+    have : r = 8 ∨ r = 9 ∨ r = 10 := by simpa [mkCState, List.range'] using hr
+    rcases this with rfl | rfl | rfl <;> exact ⟨_, rfl⟩
+
+/-- uncompressed, separate lists: appending to subset 0 leaves subset 1 alone -/
+example : let x := mkCState (π := Nat) (ν := Nat) false 2 [] 0
+    subsetView x.1 (appendDesc (x.1.switch 0) (.own ⟨1, 2, 0, 0⟩) x.2.1) 1 = subsetView x.1 x.2.1 1 := by decide
+
+/-- NEGATION: an UNCOMPRESSED `CoderState` built with `[[]] * n` — appending to subset 0 shows up in
+    subset 1 -/
+example : let x := mkCStateAliased (π := Nat) (ν := Nat) 2 [] 0
+    subsetView x.1 (appendDesc (x.1.switch 0) (.own ⟨1, 2, 0, 0⟩) x.2.1) 1 ≠ subsetView x.1 x.2.1 1 := by decide
+
+/-- compressed: one append through the alias of subset 0 is seen by all three subsets -/
+example : let x := mkCState (π := Nat) (ν := Nat) true 3 [] 0
+    let r := cRun (x.1, x.2.1) [.app (.own ⟨1, 2, 0, 0⟩), .link 4 2]
+    subsetView r.1 r.2 2 = ([⟨1, 2, 0, 0⟩], [(4, 2)]) := by decide
+
 end Bufr.Heap
